@@ -289,6 +289,32 @@ def gen_scenario(rng, idx):
     return dict(idx=idx, files=files, flags=flags, fmt=fmt, e=e, nul="-0" in flags, all=allmode, badexpr=badexpr, nullin=nullin)
 
 
+def directed_e_scenarios(idx0):
+    """-e over every sequence of up to three documents, each giving a match, null, false or no result, in one file or
+    split over two, stream and eval-all: the exit status is decided by all results of the run, not by the last document"""
+    import itertools
+    out = []
+    for n in (1, 2, 3):
+        for kinds in itertools.product(["tok", "null", "false", "none"], repeat=n):
+            for split in ([None] if n == 1 else [None, 1] if n == 2 else [None, 1, 2]):
+                for allmode in (False, True):
+                    nid = 0
+                    docs = []
+                    for k in kinds:
+                        nid += 1
+                        if k == "none":
+                            docs.append(dict(kind="res", res=[]))
+                        elif k == "tok":
+                            docs.append(dict(kind="res", res=[dict(id=nid, v=S("r%d" % nid), toks=["r%d" % nid])]))
+                        else:
+                            docs.append(dict(kind="res", res=[dict(id=nid, v=("s", "null" if k == "null" else "bool", k), toks=[k])]))
+                    files = [dict(name="f0.yml", missing=False, docs=docs)] if split is None else \
+                            [dict(name="f0.yml", missing=False, docs=docs[:split]), dict(name="f1.yml", missing=False, docs=docs[split:])]
+                    out.append(dict(idx=idx0 + len(out), files=files, flags=["-o=yaml", "-e"], fmt="yaml", e=True, nul=False, all=allmode,
+                                    badexpr=False, nullin=False))
+    return out
+
+
 def write_scenario(d, sc):
     for f in sc["files"]:
         if f["missing"]:
@@ -820,6 +846,7 @@ def run(chk):
 
         # ---------------- (C) whole runs ----------------
         scs = [gen_scenario(chk.rng, i) for i in range(6000 if thorough else 700)]
+        scs += directed_e_scenarios(len(scs))
         robs = list(pool.map(lambda s: run_scenario(root, s), scs))
         cases = []
         dist = {"exit0": 0, "exit1": 0, "other": 0, "ea": 0, "e": 0, "nul": 0, "bad_doc": 0, "missing_file": 0, "eval_error": 0}
